@@ -50,6 +50,7 @@ def conn_leak(ctx: Ctx, chk) -> None:
         fi = ctx.inl(f, lambda h: False)  # no inlining: the steps are judged through their resolved implementations
         g = CFG(fi.node)
         steps = []
+        step_impls = []
         for x in g.nodes:
             if x.ast is None or x.kind not in ("stmt", "test", "with-enter"):
                 continue
@@ -63,6 +64,7 @@ def conn_leak(ctx: Ctx, chk) -> None:
                                 continue
                             if any(_creates_task(ctx, impl) for impl in ctx.I.implementations(h)):
                                 steps.append(x)
+                                step_impls.append((x, [impl for impl in ctx.I.implementations(h) if any(g_ is impl for g_, _c in lifecycle.create_task_sites(ctx))]))
         direct = [x for x in g.nodes if x.ast is not None and any(c_ is cc for g_, cc in lifecycle.create_task_sites(ctx) if g_ is f for p_ in x.parts() for c_ in ast.walk(p_))]
         steps = list(dict.fromkeys(steps + direct))
         n += 1
@@ -81,6 +83,33 @@ def conn_leak(ctx: Ctx, chk) -> None:
 
         stops = [x for x in g.nodes if x.ast is not None and x.kind in ("stmt", "with-enter") and tears_down(x)]
         bad = None
+        # a step that itself fails after it created the task (the task is started before the connection attempt that
+        # can fail): the error leaves the step with the task running, and connect() must tear it down
+        for s, impls in step_impls:
+            exc_succ = [z for z, lab in s.succ if lab == "exc"]
+            if not exc_succ or g.reach_avoiding(exc_succ, lambda z: z is g.raise_exit, lambda z: z in stops, from_succ=False) is None:
+                continue
+            for impl in impls:
+                gi = CFG(impl.node)
+                made = [x for x in gi.nodes if x.ast is not None and x.kind in ("stmt", "test", "with-enter") and any(c_ is cc for g_, cc in lifecycle.create_task_sites(ctx) if g_ is impl for p_ in x.parts() for c_ in ast.walk(p_))]
+                stops_i = [x for x in gi.nodes if x.ast is not None and x.kind in ("stmt", "with-enter") and tears_down(x)]
+                for mk in made:
+                    after = set()
+                    stack = [y for y, lab in mk.succ if lab != "exc"]
+                    while stack:
+                        y = stack.pop()
+                        if y in after:
+                            continue
+                        after.add(y)
+                        stack.extend(z for z, lab in y.succ if lab != "exc")
+                    for y in sorted(after, key=lambda z: z.id):
+                        ex = [z for z, lab in y.succ if lab == "exc"]
+                        if not ex or y in stops_i or y.ast is None or y.kind in ("join", "dispatch"):
+                            continue
+                        if not any(isinstance(q, ast.Await) for p_ in y.parts() for q in ast.walk(p_)):
+                            continue
+                        if gi.reach_avoiding(ex, lambda z: z is gi.raise_exit, lambda z: z in stops_i, from_succ=False) is not None and bad is None:
+                            bad = (mk, y)
         for s in steps:
             after = set()
             stack = [y for y, lab in s.succ if lab != "exc"]
